@@ -56,6 +56,8 @@ const (
 	baseSaturation = 30_000_000
 	caseZstdProbe  = 40_000_000
 	baseFail       = 50_000_000
+	baseConcBuf    = 60_000_000
+	baseOptOut     = 70_000_000
 )
 
 type nullLogger struct{}
@@ -555,7 +557,7 @@ func sizeClass(n int) string {
 }
 
 func runHandlerCases(r *mon.Run, zstd0Safe bool) {
-	n := r.N(1200, 30_000)
+	n := r.N(1200, 20_000)
 	big := r.N(2<<20, 3<<20)
 	mon.Parallel(n, 0, func(i int) {
 		ci := baseHandler + i
@@ -859,7 +861,7 @@ func pickLevel(rnd *rand.Rand, codec string) int {
 }
 
 func runRoundTrips(r *mon.Run, zstd0Safe bool) {
-	n := r.N(1000, 25_000)
+	n := r.N(1000, 18_000)
 	nMulti := r.N(32, 400)
 	big := r.N(2<<20, 4<<20)
 	mon.Parallel(n, 0, func(i int) {
@@ -934,6 +936,251 @@ func runRoundTrips(r *mon.Run, zstd0Safe bool) {
 	})
 	if !r.Replaying() {
 		r.Require("roundtrips_checked", n)
+	}
+}
+
+// ---------------------------------------------------------------- (a') concurrent buffered bodies, one coding at a time
+
+// forced coding -> wrapper and Accept-Encoding that can only result in that coding
+func forcedWrapper(codec string, inner fasthttp.RequestHandler, variant int) (fasthttp.RequestHandler, string) {
+	switch codec {
+	case "br":
+		return fasthttp.CompressHandlerBrotliLevel(inner, fasthttp.CompressBrotliDefaultCompression, fasthttp.CompressDefaultCompression), "CompressHandlerBrotliLevel"
+	default:
+		switch variant % 3 {
+		case 0:
+			return fasthttp.CompressHandler(inner), "CompressHandler"
+		case 1:
+			return fasthttp.CompressHandlerLevel(inner, fasthttp.CompressBestSpeed), "CompressHandlerLevel"
+		}
+		return fasthttp.CompressHandlerBrotliLevel(inner, fasthttp.CompressBrotliDefaultCompression, fasthttp.CompressBestSpeed), "CompressHandlerBrotliLevel"
+	}
+}
+
+var compressibleTypes = []string{"", "text/html; charset=utf-8", "application/json", "image/svg+xml", "text/plain"}
+
+// runConcurrentBuffered: many goroutines (a multiple of GOMAXPROCS) serve BUFFERED bodies through the wrappers at
+// the same time, the coding forced to one of gzip/deflate/br/zstd per round (Accept-Encoding names only it). All of
+// them share the process-wide response body pool and the stackless workers. Every body is unique (marker prefix
+// naming goroutine and iteration); every response must decode to ITS OWN body.
+func runConcurrentBuffered(r *mon.Run) {
+	rounds := r.N(1, 3) // per codec
+	iters := r.N(30, 60)
+	procs := runtime.GOMAXPROCS(0)
+	idx := 0
+	for round := 0; round < rounds; round++ {
+		for _, codec := range codecs {
+			ci := baseConcBuf + idx
+			idx++
+			if !r.Want(ci) {
+				continue
+			}
+			g := procs * (2 + (round+idx)%3) // 2x, 3x, 4x GOMAXPROCS
+			seedRnd := r.Rand("concbuf", ci)
+			seeds := make([]int64, g)
+			for k := range seeds {
+				seeds[k] = seedRnd.Int63()
+			}
+			var decodedOK atomic.Int64
+			bad := launch(g, func(k int) (string, string) {
+				rnd := rand.New(rand.NewSource(seeds[k]))
+				var cur []byte
+				ctype := compressibleTypes[rnd.Intn(len(compressibleTypes))]
+				mode := rnd.Intn(4)
+				inner := func(ctx *fasthttp.RequestCtx) {
+					if ctype != "" {
+						ctx.SetContentType(ctype)
+					}
+					switch mode {
+					case 0:
+						ctx.SetBody(cur)
+					case 1:
+						ctx.Write(cur[:len(cur)/2]) //nolint:errcheck
+						ctx.Write(cur[len(cur)/2:]) //nolint:errcheck
+					case 2:
+						ctx.SetBodyString(string(cur))
+					default:
+						ctx.Response.SetBodyRaw(cur)
+					}
+				}
+				h, wname := forcedWrapper(codec, inner, k)
+				srv := &fasthttp.Server{Handler: h, Logger: nullLogger{}, NoDefaultServerHeader: true}
+				reqWire := []byte("GET /b HTTP/1.1\r\nHost: c22\r\nAccept-Encoding: " + codec + "\r\n\r\n")
+				for it := 0; it < iters; it++ {
+					marker := fmt.Sprintf("<<BODY-%s-r%d-g%d-i%d>>", codec, round, k, it)
+					size := 200 + rnd.Intn([]int{300, 300, 5000, 5000, 20_000, 96 << 10}[rnd.Intn(6)])
+					cur = markerPayload(rnd, marker, size)
+					// 1-3 requests per connection, same body
+					nreq := 1 + rnd.Intn(3)
+					conn := netx.NewScripted(bytes.Repeat(reqWire, nreq), nil)
+					srv.ServeConn(conn) //nolint:errcheck
+					br := bufio.NewReader(bytes.NewReader(conn.Written()))
+					for q := 0; q < nreq; q++ {
+						resp, err := http.ReadResponse(br, &http.Request{Method: "GET"})
+						if err != nil {
+							return "concurrent-buffered-wire-unparseable", fmt.Sprintf("%s via %s: %v", codec, wname, err)
+						}
+						got, err := io.ReadAll(resp.Body)
+						if err != nil {
+							return "concurrent-buffered-wire-unparseable", fmt.Sprintf("%s via %s: body: %v", codec, wname, err)
+						}
+						ce := resp.Header.Get("Content-Encoding")
+						if ce != codec {
+							return "concurrent-buffered-wrong-coding", fmt.Sprintf("Accept-Encoding %s via %s: Content-Encoding %q (%d-byte body, type %q)", codec, wname, ce, len(cur), ctype)
+						}
+						dec, err := decode(codec, got)
+						if err != nil || !bytes.Equal(dec, cur) {
+							if i := bytes.Index(dec, []byte("<<BODY-")); i >= 0 && !bytes.HasPrefix(dec[i:], []byte(marker)) {
+								j := bytes.Index(dec[i:], []byte(">>"))
+								if j < 0 || j > 80 {
+									j = 40
+								}
+								return "concurrent-buffered-foreign-body-" + codec, fmt.Sprintf("%s via %s with %d goroutines: the response for %s decodes to %d bytes that carry %s (own body %d bytes, err=%v)", codec, wname, g, marker, len(dec), dec[i:i+j+2], len(cur), err)
+							}
+							return "concurrent-buffered-mismatch-" + codec, fmt.Sprintf("%s via %s with %d goroutines: response for %s decodes to %d bytes, err=%v; own body %d bytes", codec, wname, g, marker, len(dec), err, len(cur))
+						}
+						decodedOK.Add(1)
+					}
+				}
+				return "", ""
+			})
+			r.Cases(int(decodedOK.Load()), fmt.Sprintf("concbuf/%s/g=%dxP", codec, g/procs), true)
+			r.Event("concbuf_own_body_decoded_"+codec, int(decodedOK.Load()))
+			for key, e := range bad {
+				r.Violation(ci, key, fmt.Sprintf("%d of %d goroutines: %s", e.n, g, e.what), map[string]any{"codec": codec, "goroutines": g, "iterations": iters, "round": round})
+			}
+		}
+	}
+	if !r.Replaying() {
+		for _, c := range codecs {
+			r.Require("concbuf_own_body_decoded_"+c, rounds*iters*procs)
+		}
+	}
+}
+
+// ---------------------------------------------------------------- (a'') body streams that opt out of WriteTo
+
+// redactingReader embeds *bytes.Reader (and so inherits its WriteTo, which would emit the RAW bytes) but
+// transforms what Read hands out, and opts out of WriteTo through fasthttp.BodyWriterTo. The body of the response
+// is, by definition, what Read yields.
+type redactingReader struct {
+	*bytes.Reader
+	reads int
+}
+
+func (x *redactingReader) Read(p []byte) (int, error) {
+	n, err := x.Reader.Read(p)
+	for i := 0; i < n; i++ {
+		p[i] = redact(p[i])
+	}
+	x.reads++
+	return n, err
+}
+
+func (x *redactingReader) SupportsBodyWriteTo() bool { return false }
+
+func redact(c byte) byte {
+	if c >= '0' && c <= '9' {
+		return '#'
+	}
+	if c >= 'a' && c <= 'z' {
+		return c - 32
+	}
+	return c
+}
+
+var _ fasthttp.BodyWriterTo = (*redactingReader)(nil)
+
+func runOptOutStreams(r *mon.Run) {
+	n := r.N(400, 6000)
+	mon.Parallel(n, 0, func(i int) {
+		ci := baseOptOut + i
+		if !r.Want(ci) {
+			return
+		}
+		rnd := r.Rand("optout", i)
+		coding := []string{"gzip", "deflate", "br", "zstd", "identity"}[i%5]
+		raw := markerPayload(rnd, fmt.Sprintf("secret-%d-0123456789", i), []int{0, 1, 199, 200, 201, 5000, 70_000, 300_000}[rnd.Intn(8)])
+		want := make([]byte, len(raw))
+		for k, c := range raw {
+			want[k] = redact(c)
+		}
+		sized := rnd.Intn(2) == 0
+		var rd *redactingReader
+		inner := func(ctx *fasthttp.RequestCtx) {
+			rd = &redactingReader{Reader: bytes.NewReader(raw)}
+			size := -1
+			if sized {
+				size = len(raw)
+			}
+			ctx.SetBodyStream(rd, size)
+		}
+		h, wname := forcedWrapper(coding, inner, rnd.Intn(3))
+		ae := "Accept-Encoding: " + coding + "\r\n"
+		if coding == "identity" {
+			ae = []string{"", "Accept-Encoding: identity\r\n"}[rnd.Intn(2)]
+		}
+		conn := netx.NewScripted([]byte("GET /o HTTP/1.1\r\nHost: c22\r\n"+ae+"\r\n"), nil)
+		srv := &fasthttp.Server{Handler: h, Logger: nullLogger{}, NoDefaultServerHeader: true}
+		var panicked any
+		func() {
+			defer func() { panicked = recover() }()
+			srv.ServeConn(conn) //nolint:errcheck
+		}()
+		pl := map[string]any{"coding": coding, "wrapper": wname, "body_len": len(raw), "sized": sized}
+		if panicked != nil {
+			r.Violation(ci, "panic", fmt.Sprintf("ServeConn panicked: %v", panicked), pl)
+			return
+		}
+		r.Case(fmt.Sprintf("optout/%s/%s/sized=%t/size=%s", coding, wname, sized, sizeClass(len(raw))), len(raw) > 0)
+		r.Event("optout_cases", 1)
+		// the wire is read back both with net/http and with fasthttp's own Response.Read
+		resp, err := http.ReadResponse(bufio.NewReader(bytes.NewReader(conn.Written())), &http.Request{Method: "GET"})
+		if err != nil {
+			r.Violation(ci, "optout-wire-unparseable", fmt.Sprintf("%v; wire %s", err, mon.Short(conn.Written(), 200)), pl)
+			return
+		}
+		got, err := io.ReadAll(resp.Body)
+		if err != nil {
+			r.Violation(ci, "optout-wire-unparseable", fmt.Sprintf("body: %v", err), pl)
+			return
+		}
+		var fresp fasthttp.Response
+		if err := fresp.Read(bufio.NewReader(bytes.NewReader(conn.Written()))); err != nil || !bytes.Equal(fresp.Body(), got) {
+			r.Violation(ci, "optout-fasthttp-reads-differently", fmt.Sprintf("Response.Read: err=%v, %d body bytes; net/http: %d", err, len(fresp.Body()), len(got)), pl)
+		}
+		ce := resp.Header.Get("Content-Encoding")
+		dec := got
+		if ce != "" {
+			if ce != coding {
+				r.Violation(ci, "optout-wrong-coding", fmt.Sprintf("Accept-Encoding %s, Content-Encoding %q", coding, ce), pl)
+				return
+			}
+			if dec, err = decode(ce, got); err != nil {
+				r.Violation(ci, "optout-decoded-mismatch-"+ce, fmt.Sprintf("%d wire bytes do not decode: %v", len(got), err), pl)
+				return
+			}
+			r.Event("optout_decoded_"+ce, 1)
+		} else {
+			if coding != "identity" {
+				r.Event("optout_not_compressed_"+coding, 1)
+			}
+			r.Event("optout_identity", 1)
+		}
+		switch {
+		case bytes.Equal(dec, want):
+		case len(raw) > 0 && bytes.Equal(dec, raw):
+			r.Violation(ci, "optout-writeto-used-despite-opt-out", fmt.Sprintf("%s via %s: the body on the wire is what the embedded WriteTo emits (%d raw bytes), not what Read yields, although SupportsBodyWriteTo() is false (Read was called %d times)", coding, wname, len(raw), rd.reads), pl)
+		default:
+			r.Violation(ci, "optout-body-mismatch", fmt.Sprintf("%s via %s: %d bytes on the wire decode to %d bytes, Read yields %d", coding, wname, len(got), len(dec), len(want)), pl)
+		}
+	})
+	if !r.Replaying() {
+		r.Require("optout_cases", n)
+		for _, c := range codecs {
+			r.Require("optout_decoded_"+c, n/8)
+		}
+		r.Require("optout_identity", n/8)
 	}
 }
 
@@ -1648,7 +1895,7 @@ func probeZstdLevel0(r *mon.Run) (safe bool) {
 func TestC22(t *testing.T) {
 	r := mon.Start(t, "C22")
 	defer r.Finish()
-	r.Rule("handler case = 1-3 pipelined requests (Accept-Encoding list of 1-5 codings over {gzip deflate br zstd identity * x-gzip GZIP foo…} × q-params × separators, absent, empty, two lines) to CompressHandler/CompressHandlerLevel/CompressHandlerBrotliLevel(levels in and out of range) around a handler producing a 0…3 MiB body (size ladder around minCompressLen=200) via SetBody/Write/SetBodyString/SetBodyRaw/SetBodyStream(size|-1)/SetBodyStreamWriter, with content types, pre-set Content-Encoding and Vary; round-trip case = codec × API (Append*Level, Append*, Write*Level to bytes.Buffer / ByteBuffer / plain io.Writer) × level × input; fail round = per codec 1-4 Write*Level calls with marker payloads to plain writers that fail after 0…4000 bytes, then 1-4 calls with other payloads to healthy plain writers on the same goroutine (or spread over goroutines): each later output must decode to exactly its own input and carry no earlier marker; group = same call from 1…8192 goroutines behind one barrier; saturation = a child process with GOMAXPROCS=p (queue capacity p×2048, p workers) in which load×p×2048 goroutines behind one barrier compress the same 100 KiB input; distinct = feature vectors (wrapper, mode, content type, pre-encoding, size class, level class, resulting coding | codec, api, level class, size class, input kind | load); non-trivial = response was compressed or pre-encoded / non-empty input / more than one goroutine")
+	r.Rule("handler case = 1-3 pipelined requests (Accept-Encoding list of 1-5 codings over {gzip deflate br zstd identity * x-gzip GZIP foo…} × q-params × separators, absent, empty, two lines) to CompressHandler/CompressHandlerLevel/CompressHandlerBrotliLevel(levels in and out of range) around a handler producing a 0…3 MiB body (size ladder around minCompressLen=200) via SetBody/Write/SetBodyString/SetBodyRaw/SetBodyStream(size|-1)/SetBodyStreamWriter, with content types, pre-set Content-Encoding and Vary; round-trip case = codec × API (Append*Level, Append*, Write*Level to bytes.Buffer / ByteBuffer / plain io.Writer) × level × input; concbuf = per coding (Accept-Encoding names only it) 2-4×GOMAXPROCS goroutines serving unique marker-prefixed BUFFERED bodies of 200 B…96 KiB through the wrappers at the same time; optout = body streams implementing BodyWriterTo with SupportsBodyWriteTo()==false whose inherited WriteTo would emit other bytes than Read, through every coding and identity; fail round = per codec 1-4 Write*Level calls with marker payloads to plain writers that fail after 0…4000 bytes, then 1-4 calls with other payloads to healthy plain writers on the same goroutine (or spread over goroutines): each later output must decode to exactly its own input and carry no earlier marker; group = same call from 1…8192 goroutines behind one barrier; saturation = a child process with GOMAXPROCS=p (queue capacity p×2048, p workers) in which load×p×2048 goroutines behind one barrier compress the same 100 KiB input; distinct = feature vectors (wrapper, mode, content type, pre-encoding, size class, level class, resulting coding | codec, api, level class, size class, input kind | load); non-trivial = response was compressed or pre-encoded / non-empty input / more than one goroutine")
 	r.Assume("decoding oracle: compress/gzip and compress/zlib of the standard library for gzip and deflate (\"deflate\" is the zlib-wrapped format, RFC 9110 8.4.1.2); for br and zstd the readers of andybalholm/brotli and klauspost/compress/zstd are driven directly (fasthttp links the same libraries, so a codec-library bug common to encoder and decoder would not be seen; transparency of fasthttp's use of them is)")
 	r.Assume("net/http.ReadResponse is the wire parser (framing: Content-Length / chunked / close)")
 	r.Assume("Accept-Encoding model written from RFC 9110 12.5.3; lists naming the chosen coding both with q>0 and q=0 are ambiguous and not judged (skipped_ambiguous_accept_encoding); an identity response is never judged against identity;q=0")
@@ -1671,6 +1918,8 @@ func TestC22(t *testing.T) {
 	}
 	phase("handler", func() { runHandlerCases(r, zstd0Safe) })
 	phase("roundtrip", func() { runRoundTrips(r, zstd0Safe) })
+	phase("concbuf", func() { runConcurrentBuffered(r) })
+	phase("optout", func() { runOptOutStreams(r) })
 	phase("failrounds", func() { runFailRounds(r) })
 	phase("groups", func() { runGroups(r) })
 	phase("saturation", func() { runSaturation(r) })
